@@ -205,3 +205,18 @@ impl FlashlightEvaluator {
         result
     }
 }
+
+/// Verification hook: raw output of `FlashlightEvaluator::evaluate_diff_of` for the
+/// evaluator `Flashlight::new` would build (`scaling_factor = 52.0 / radius`).
+#[cfg(rosu_pp_verif)]
+pub fn verif_evaluate<'a>(
+    curr: &'a OsuDifficultyObject<'a>,
+    diff_objects: &'a [OsuDifficultyObject<'a>],
+    hidden: bool,
+    radius: f64,
+    time_preempt: f64,
+    time_fade_in: f64,
+) -> f64 {
+    FlashlightEvaluator::new(52.0 / radius, time_preempt, time_fade_in)
+        .evaluate_diff_of(curr, diff_objects, hidden)
+}
